@@ -771,6 +771,45 @@ func (s *Sched) Lock(l sync.Locker, site string) {
 	st.owner = s.cur.ID
 }
 
+// TryLock is a scheduling point; it takes the mutex if the simulator
+// considers it free.
+func (s *Sched) TryLock(l simrt.TryLocker, site string) bool {
+	if s.killing {
+		runtime.Goexit()
+	}
+	switch m := l.(type) {
+	case *sync.Mutex:
+		s.point(site)
+		st := s.mus[m]
+		if st == nil {
+			st = &muState{}
+			s.mus[m] = st
+		}
+		if st.held {
+			return false
+		}
+		if !m.TryLock() {
+			panic("simkit: mutex locked outside the simulation")
+		}
+		st.held = true
+		st.owner = s.cur.ID
+		return true
+	case *sync.RWMutex:
+		s.point(site)
+		st := s.rwState(m)
+		if st.held || st.readers > 0 {
+			return false
+		}
+		if !m.TryLock() {
+			panic("simkit: rwmutex locked outside the simulation")
+		}
+		st.held = true
+		st.owner = s.cur.ID
+		return true
+	}
+	return l.TryLock()
+}
+
 // Unlock releases a mutex and makes its waiters runnable.
 func (s *Sched) Unlock(l sync.Locker) {
 	if rw, isRW := l.(*sync.RWMutex); isRW {
